@@ -319,7 +319,7 @@ def site_outcomes(tc: dict, datum):
             final = ("raised", exc_name(type(e)))
         return log, final
 
-    key = id(tc["fn"])
+    key = tc["fn"]      # the function object itself (not id(): ids are reused once a closure table is garbage collected)
     if key not in _INSTRUMENTED:
         node = find_def(tc["fn"])
         import copy
